@@ -2191,7 +2191,7 @@ pub fn gen_c17(rng: &mut Rng, tier: &str, out: &mut Out) {
             // invalid UTF-8 reaches try_parse as bytes
             let mut b = t.clone().into_bytes();
             let pos = if b.is_empty() { 0 } else { rng.below(b.len()) };
-            b.insert(pos, rng.pick(&[0xffu8, 0xc3, 0x80, 0xe2, 0xf0, 0xed]));
+            b.insert(pos, rng.pick(&[0xffu8, 0xc3, 0x80, 0xe2, 0xf0, 0xed, 0xb2, 0xb9, 0xbc, 0xbe]));
             out.d(format!("TRC {}", hx(&b)));
             out.d(format!("FRM {}", hx(&b)));
             out.d(format!("THW {}", hx(&b)));
